@@ -60,7 +60,7 @@ fn show<T: std::fmt::Debug>(r: &Result<T, Error>) -> String {
 }
 
 /// Iterator adaptor that hands the same items to the one-shot functions under a different (still truthful)
-/// `size_hint`: mode 0 = the inner iterator's exact hint, 1 = (0, Some(upper + 3)) as a `filter` would give,
+/// `size_hint`: mode 0 = the inner iterator's exact hint, 1 = (0, Some(upper + 1)) as a `filter` over one more candidate would give,
 /// 2 = (0, None). The result of encode()/decode() must not depend on it.
 struct Loose<I> {
     inner: I,
@@ -75,7 +75,7 @@ impl<I: Iterator> Iterator for Loose<I> {
         let (lo, hi) = self.inner.size_hint();
         match self.mode {
             0 => (lo, hi),
-            1 => (0, hi.map(|h| h + 3)),
+            1 => (0, hi.map(|h| h + 1)),
             _ => (0, None),
         }
     }
